@@ -28,6 +28,10 @@ pub struct SetCase {
     pub grid: Vec<(i32, i32, i32, i32)>,
     /// permutation seed for the order-independence relation
     pub perm: Vec<usize>,
+    /// per box: edits applied to the box object before the call (vertex cache generated, then
+    /// fields changed); the geometry that counts is the current one
+    #[serde(default)]
+    pub edits: Vec<Vec<crate::props::c08::BoxEdit>>,
 }
 
 fn perm_strategy() -> impl Strategy<Value = Vec<usize>> {
@@ -40,18 +44,21 @@ pub fn set_case() -> impl Strategy<Value = SetCase> {
         boxes: g.iter().map(|&(l, t, w, h)| UB::ltwh(l as f32, t as f32, w as f32, h as f32)).collect(),
         grid: g,
         perm,
+        edits: vec![],
     });
     let aa = (proptest::collection::vec((0.0f32..60.0, 0.0f32..60.0, 2.0f32..40.0, 2.0f32..40.0), 1..=8), -1000.0f32..1000.0, perm_strategy()).prop_map(|(v, off, perm)| SetCase {
         kind: SetKind::AxisAligned,
         boxes: v.iter().map(|&(l, t, w, h)| UB::ltwh(l + off, t - off, w, h)).collect(),
         grid: vec![],
         perm,
+        edits: vec![],
     });
     let rot = (proptest::collection::vec((0.0f32..60.0, 0.0f32..60.0, 2.0f32..40.0, 2.0f32..40.0, prop_oneof![1 => Just(None), 4 => (-3.2f32..3.2).prop_map(Some)]), 1..=8), -1000.0f32..1000.0, perm_strategy()).prop_map(|(v, off, perm)| SetCase {
         kind: SetKind::Rotated,
         boxes: v.iter().map(|&(x, y, w, h, a)| UB::new(x + off, y - off, a, w / h, h)).collect(),
         grid: vec![],
         perm,
+        edits: vec![],
     });
     // near-degenerate: shared / almost collinear edges, identical boxes, right-angle rotations
     let degen = (
@@ -96,9 +103,40 @@ pub fn set_case() -> impl Strategy<Value = SetCase> {
                 };
                 boxes.push(b);
             }
-            SetCase { kind: SetKind::Degenerate, boxes, grid: vec![], perm }
+            SetCase { kind: SetKind::Degenerate, boxes, grid: vec![], perm, edits: vec![] }
         });
-    prop_oneof![3 => integer, 3 => aa, 4 => rot, 3 => degen]
+    let base = prop_oneof![3 => integer, 3 => aa, 4 => rot, 3 => degen];
+    // a fifth of the rotated / axis-aligned sets consist of box objects with a history
+    (base, proptest::collection::vec(proptest::collection::vec(box_edit(), 0..4), 8), proptest::bool::weighted(0.2)).prop_map(|(mut c, edits, with_edits)| {
+        if with_edits && matches!(c.kind, SetKind::Rotated | SetKind::AxisAligned) {
+            c.edits = edits;
+        }
+        c
+    })
+}
+
+fn box_edit() -> impl Strategy<Value = crate::props::c08::BoxEdit> {
+    use crate::props::c08::BoxEdit;
+    prop_oneof![
+        3 => Just(BoxEdit::GenVertices),
+        2 => (-30.0f32..90.0).prop_map(BoxEdit::SetXc),
+        2 => (-30.0f32..90.0).prop_map(BoxEdit::SetYc),
+        2 => (-3.2f32..3.2).prop_map(BoxEdit::RotateMut),
+        1 => (0.3f32..3.0).prop_map(BoxEdit::SetAspect),
+        1 => (3.0f32..40.0).prop_map(BoxEdit::SetHeight),
+    ]
+}
+
+/// the box objects handed to the library and their current geometry
+fn materialize(c: &SetCase) -> (Vec<Universal2DBox>, Vec<UB>) {
+    let mut libs = vec![];
+    let mut cur = vec![];
+    for (i, b) in c.boxes.iter().enumerate() {
+        let (l, u) = crate::props::c08::apply_edits(b, c.edits.get(i).map(|v| v.as_slice()).unwrap_or(&[]));
+        libs.push(l);
+        cur.push(u);
+    }
+    (libs, cur)
 }
 
 /// Near-degenerate input by an objective geometric predicate: some vertex of one box lies
@@ -142,7 +180,10 @@ fn qualify(f: Fail, degen: bool) -> Fail {
     if !degen {
         return f;
     }
-    let kind = if f.signature == "panic@own_areas:geo-boolean-ops" {
+    let geo_thread_panic = f.signature.starts_with("panic@thread:algorithm/bool_ops/") || f.signature.starts_with("panic@thread:algorithm/sweep/");
+    let kind = if f.signature == "panic@own_areas:geo-boolean-ops" || geo_thread_panic {
+        // (a panic on a rayon worker while another worker never returns is reported by the
+        // child's watchdog as panic@thread:<location in geo>)
         "panic-geo"
     } else if f.signature.starts_with("hang@") {
         "hang"
@@ -167,6 +208,10 @@ fn panic_fail(loc: String, msg: String, what: &str) -> Fail {
 
 fn shares(boxes: &[UB]) -> Result<Vec<f32>, (String, String)> {
     let libs: Vec<Universal2DBox> = boxes.iter().map(|b| b.lib()).collect();
+    shares_of(&libs)
+}
+
+fn shares_of(libs: &[Universal2DBox]) -> Result<Vec<f32>, (String, String)> {
     let refs: Vec<&Universal2DBox> = libs.iter().collect();
     guard(|| {
         let polys = exclusively_owned_areas(&refs);
@@ -175,14 +220,19 @@ fn shares(boxes: &[UB]) -> Result<Vec<f32>, (String, String)> {
 }
 
 pub fn check_set(c: &SetCase) -> CaseResult {
-    let rb: Vec<geom::RBox> = c.boxes.iter().map(|b| b.rbox()).collect();
+    let rb: Vec<geom::RBox> = materialize(c).1.iter().map(|b| b.rbox()).collect();
     let degen = degenerate(&rb);
     check_set_inner(c).map(|ok| ok.label_if(degen, "degenerate_by_predicate")).map_err(|f| qualify(f, degen))
 }
 
-fn check_set_inner(c: &SetCase) -> CaseResult {
+fn check_set_inner(c0: &SetCase) -> CaseResult {
+    // box objects with a history are replaced by their current geometry for the reference
+    let (libs, cur) = materialize(c0);
+    let mut c1 = c0.clone();
+    c1.boxes = cur;
+    let c = &c1;
     let n = c.boxes.len();
-    let got = match shares(&c.boxes) {
+    let got = match shares_of(&libs) {
         Ok(v) => v,
         // panics from rayon workers are re-raised on the caller without a location
         Err((loc, msg)) => return Err(panic_fail(loc, msg, "")),
@@ -236,7 +286,8 @@ fn check_set_inner(c: &SetCase) -> CaseResult {
             Err((loc, msg)) => return Err(panic_fail(loc, msg, " on a permutation of the input")),
         }
     }
-    Ok(CaseOk::new(deep || degenerate(&rb))
+    Ok(CaseOk::new(deep || degenerate(&rb) || !c0.edits.is_empty())
+        .label_if(!c0.edits.is_empty(), "edited_box_objects")
         .label(match c.kind { SetKind::IntegerGrid => "integer_grid", SetKind::AxisAligned => "axis_aligned", SetKind::Rotated => "rotated", SetKind::Degenerate => "degenerate" })
         .label_if(deep, "depth3"))
 }
@@ -248,8 +299,8 @@ pub fn run(env: &Env, rep: &Report) {
     let pool = IsoPool::new(&env.prop, "sets", std::time::Duration::from_secs(10));
     let check = |c: &SetCase| -> CaseResult {
         pool.eval(c).map_err(|f| {
-            if f.signature.starts_with("hang@") {
-                let rb: Vec<geom::RBox> = c.boxes.iter().map(|b| b.rbox()).collect();
+            if f.signature.starts_with("hang@") || f.signature.starts_with("panic@thread:") {
+                let rb: Vec<geom::RBox> = materialize(c).1.iter().map(|b| b.rbox()).collect();
                 qualify(f, degenerate(&rb))
             } else {
                 f
@@ -272,8 +323,8 @@ pub fn replay_isolated(env_prop: &str, sub: &str, case: Value) -> Option<CaseRes
     };
     let pool = IsoPool::new(env_prop, "sets", std::time::Duration::from_secs(10));
     let r = pool.eval(&c).map_err(|f| {
-        if f.signature.starts_with("hang@") {
-            let rb: Vec<geom::RBox> = c.boxes.iter().map(|b| b.rbox()).collect();
+        if f.signature.starts_with("hang@") || f.signature.starts_with("panic@thread:") {
+            let rb: Vec<geom::RBox> = materialize(&c).1.iter().map(|b| b.rbox()).collect();
             qualify(f, degenerate(&rb))
         } else {
             f
